@@ -12,6 +12,7 @@ func init() {
 				out = append(out, stratify(ls(tier, seed), every[id])...)
 			}
 		}
+		out = append(out, writeRaceCases(tier, seed)...)
 		return out
 	}
 	listers["C14"] = func(tier string, seed int64) []Case {
